@@ -299,6 +299,37 @@ def partial_cmp_f64(m, ref, args, t, sp):
     return none()
 
 
+def total_cmp_f64(m, ref, args, t, sp):
+    """f64::total_cmp: the IEEE totalOrder.  It distinguishes -0.0 from +0.0 and orders NaNs by
+    sign; the abstract domain tracks neither sign, so for numerically equal operands that may be
+    zero, and for NaN operands, every outcome the signs allow is explored."""
+    a, b = load(m, args[0]), load(m, args[1])
+    if not (is_float(a) and is_float(b)):
+        return VOpaque("?", m.new_name("total_cmp"))
+    na = m.truth(("isnan", a), sp, "total_cmp")
+    nb = m.truth(("isnan", b), sp, "total_cmp")
+    if na or nb:
+        c = m.choose(2, ("total_cmp-nan-sign", sp))
+        return ordering(-1 if c == 0 else 1)
+    if m.truth(("fcmp", "Lt", a, b), sp, "total_cmp"):
+        return ordering(-1)
+    if m.truth(("fcmp", "Gt", a, b), sp, "total_cmp"):
+        return ordering(1)
+    # numerically equal: signed zeros differ under totalOrder
+    may_zero = m.order.decide("Ne", a, F.ZERO) is not True
+    if may_zero and not (F.is_lit(a) and F.is_lit(b)):
+        c = m.choose(3, ("total_cmp-zero-sign", sp))
+        if c > 0:
+            try:
+                m.order.assume("Eq", a, F.ZERO, True)
+            except Infeasible:
+                raise PathEnd("infeasible")
+            m.pc.append(("fcmp", "Eq", a, F.ZERO, True, sp))
+            m.notes.append(("signed-zero", sp))
+            return ordering(-1 if c == 1 else 1)
+    return ordering(0)
+
+
 def partial_eq_ref(m, ref, args, t, sp):
     a, b = load(m, args[0]), load(m, args[1])
     a, b = load(m, a), load(m, b)
@@ -958,6 +989,7 @@ BY_NAME = {
     "core::result::Result::<T, E>::expect": result_unwrap,
     "num_traits::pow::pow": num_pow,
     "core::f64::<impl f64>::is_nan": float_is_nan,
+    "core::f64::<impl f64>::total_cmp": total_cmp_f64,
     "core::f64::<impl f64>::is_finite": float_is_finite,
     "core::f64::<impl f64>::is_infinite": float_is_infinite,
     "core::f64::<impl f64>::abs": float_fn1("abs"),
